@@ -94,6 +94,15 @@ func runC11(c *Ctx) {
 	})
 	// R11c
 	c11Goroutines(c, defectFns)
+	c.Rule("R11i", "a conditionally filled slice of pointers is never returned with its unfilled (nil) tail", 0)
+	for _, f := range nilHoles(c.P) {
+		c.Check(f.OK, "R11i", f.Key, f.Pos, "returned trimmed", f.Detail)
+	}
+	c.runControl("R11i nil holes", "holes.Parse", nilHoles)
+	c.Rule("R11h", "a goroutine that consumes the read end of a pipe releases it on every path to its end", 4)
+	for _, f := range pipeReaderLeaks(c.P) {
+		c.Check(f.OK, "R11h", f.Key, f.Pos, "the read end is closed or drained on every path", f.Detail)
+	}
 }
 
 func (p *Prog) funcByName(key string) *ssa.Function {
@@ -807,4 +816,232 @@ func (p *Prog) moduleReachOpt(roots []*ssa.Function, resolveFuncValues bool) map
 		}
 	}
 	return seen
+}
+
+// ------------------------------------------------------------------------------ R11h
+
+// pipeReaderLeaks: for every io.Pipe whose read end is consumed by a goroutine, the goroutine
+// must release the read end (Close/CloseWithError, or drain it into io.Discard) on every path
+// to its end. Otherwise a reader that stops early (parse error, scanner limit) leaves the
+// writer blocked forever in Write: a hang instead of an error.
+func pipeReaderLeaks(p *Prog) (out []gFinding) {
+	n := map[*ssa.Function]int{}
+	for _, fn := range p.Funcs {
+		for _, pc := range p.callsIn(fn, "io.Pipe") {
+			var rd ssa.Value
+			for _, r := range *pc.Value().Referrers() {
+				if ex, ok := r.(*ssa.Extract); ok && ex.Index == 0 {
+					rd = ex
+				}
+			}
+			if rd == nil {
+				continue
+			}
+			// the reader may be spilled to a cell when captured by reference
+			ids := map[ssa.Value]bool{rd: true}
+			for _, r := range *rd.Referrers() {
+				if st, ok := r.(*ssa.Store); ok && st.Val == rd {
+					ids[st.Addr] = true
+				}
+			}
+			for _, b := range fn.Blocks {
+				for _, in := range b.Instrs {
+					g, ok := in.(*ssa.Go)
+					if !ok {
+						continue
+					}
+					mc, ok := g.Call.Value.(*ssa.MakeClosure)
+					if !ok {
+						continue
+					}
+					body, _ := mc.Fn.(*ssa.Function)
+					if body == nil {
+						continue
+					}
+					fv := -1
+					for i, bnd := range mc.Bindings {
+						if ids[bnd] {
+							fv = i
+						}
+					}
+					if fv < 0 {
+						continue
+					}
+					n[fn]++
+					key := fmt.Sprintf("%s pipe-reader goroutine#%d", p.FName(fn), n[fn])
+					isReader := func(f *ssa.Function, v ssa.Value) bool {
+						v = stripConv(v)
+						if l, ok := v.(*ssa.UnOp); ok && l.Op == token.MUL {
+							v = l.X
+						}
+						// free variable of this closure, or of a closure nested in it
+						if x, ok := v.(*ssa.FreeVar); ok {
+							for ff := f; ff != nil; ff = ff.Parent() {
+								if ff == body {
+									for i, bv := range body.FreeVars {
+										if i == fv && (bv == x || sameFreeVarChain(f, x, body, bv)) {
+											return true
+										}
+									}
+								}
+							}
+						}
+						return false
+					}
+					releases := func(f *ssa.Function, in ssa.Instruction) bool {
+						ci, ok := in.(ssa.CallInstruction)
+						if !ok {
+							return false
+						}
+						name := p.calleeName(ci.Common())
+						switch name {
+						case "(*io.PipeReader).Close", "(*io.PipeReader).CloseWithError":
+							return isReader(f, ci.Common().Args[0])
+						case "io.Copy":
+							dst := stripConv(ci.Common().Args[0])
+							if l, ok := dst.(*ssa.UnOp); ok {
+								if gl, ok := l.X.(*ssa.Global); ok && gl.Name() == "Discard" {
+									return isReader(f, ci.Common().Args[1])
+								}
+							}
+						}
+						return false
+					}
+					// release points in the goroutine body: direct calls, or a defer of a closure that releases
+					rel := map[int]bool{}
+					for _, bb := range body.Blocks {
+						for _, x := range bb.Instrs {
+							if releases(body, x) {
+								rel[bb.Index] = true
+							}
+							if d, ok := x.(*ssa.Defer); ok {
+								if dmc, ok := d.Call.Value.(*ssa.MakeClosure); ok {
+									if df, ok := dmc.Fn.(*ssa.Function); ok {
+										for _, db := range df.Blocks {
+											for _, dx := range db.Instrs {
+												if releases(df, dx) {
+													rel[bb.Index] = true
+												}
+											}
+										}
+									}
+								}
+							}
+						}
+					}
+					del := map[edge]bool{}
+					for bi := range rel {
+						for si := range body.Blocks[bi].Succs {
+							del[edge{bi, si}] = true
+						}
+					}
+					seen := reach(body, []*ssa.BasicBlock{body.Blocks[0]}, del, nil)
+					leak := ""
+					for _, r := range returnsOf(body) {
+						if seen[r.Block().Index] && !rel[r.Block().Index] {
+							leak = p.Pos(r.Pos())
+						}
+					}
+					if len(returnsOf(body)) == 0 {
+						leak = ""
+					}
+					out = append(out, gFinding{Key: key, Pos: p.Pos(g.Pos()), OK: leak == "",
+						Detail: "the goroutine that reads this pipe can finish without closing or draining the read end (its return at " + leak + "): when it stops reading early — a parse error, a bufio.Scanner line limit — the writer stays blocked in Write forever, so an unusual input hangs the operation instead of failing it"})
+				}
+			}
+		}
+	}
+	return
+}
+
+// sameFreeVarChain: x (a free variable of an inner closure f) is bound, through the chain of
+// enclosing closures, to the free variable bv of outer.
+func sameFreeVarChain(f *ssa.Function, x *ssa.FreeVar, outer *ssa.Function, bv *ssa.FreeVar) bool {
+	for f != nil && f != outer {
+		parent := f.Parent()
+		if parent == nil {
+			return false
+		}
+		idx := -1
+		for i, v := range f.FreeVars {
+			if v == x {
+				idx = i
+			}
+		}
+		if idx < 0 {
+			return false
+		}
+		mc := closureMaker(parent, f)
+		if mc == nil || idx >= len(mc.Bindings) {
+			return false
+		}
+		nx, ok := mc.Bindings[idx].(*ssa.FreeVar)
+		if !ok {
+			return false
+		}
+		x, f = nx, parent
+	}
+	return f == outer && x == bv
+}
+
+// ------------------------------------------------------------------------------ R11i
+
+// nilHoles: a slice of pointers allocated WITH A LENGTH, whose elements are stored only on some
+// iterations of the filling loop, and which is returned without being trimmed to the number of
+// elements stored: the untouched tail is nil and the callers dereference it.
+func nilHoles(p *Prog) (out []gFinding) {
+	n := map[*ssa.Function]int{}
+	for _, fn := range p.Funcs {
+		for _, b := range fn.Blocks {
+			for _, in := range b.Instrs {
+				ms, ok := in.(*ssa.MakeSlice)
+				if !ok {
+					continue
+				}
+				sl, ok := ms.Type().Underlying().(*types.Slice)
+				if !ok {
+					continue
+				}
+				if _, isPtr := sl.Elem().Underlying().(*types.Pointer); !isPtr {
+					continue
+				}
+				if isIntConst(ms.Len, 0) {
+					continue
+				}
+				// element stores
+				var stores []*ssa.Store
+				for _, r := range *ms.Referrers() {
+					if ia, ok := r.(*ssa.IndexAddr); ok {
+						for _, rr := range *ia.Referrers() {
+							if st, ok := rr.(*ssa.Store); ok && st.Addr == ssa.Value(ia) {
+								stores = append(stores, st)
+							}
+						}
+					}
+				}
+				if len(stores) != 1 {
+					continue
+				}
+				_, skips := iterationSkips(fn, stores[0], nil)
+				if !skips {
+					continue
+				}
+				n[fn]++
+				// returned untrimmed?
+				bad := ""
+				for _, r := range returnsOf(fn) {
+					for i := range r.Results {
+						for _, lf := range phiLeaves(retVal(r, i), nil, map[*ssa.Phi]bool{}) {
+							if lf.V == ssa.Value(ms) {
+								bad = p.Pos(r.Pos())
+							}
+						}
+					}
+				}
+				out = append(out, gFinding{Key: fmt.Sprintf("%s conditionally filled []*T#%d", p.FName(fn), n[fn]), Pos: p.Pos(ms.Pos()), OK: bad == "",
+					Detail: "a slice of pointers is allocated with its full length, filled only for some inputs, and returned untrimmed at " + bad + ": for an input with an entry that is skipped the result ends in nil pointers, which the callers dereference (a crash instead of an error)"})
+			}
+		}
+	}
+	return
 }
